@@ -141,6 +141,24 @@ def match_known(known, prop, f):
     return None
 
 
+def _reference_tree(repo):
+    """True when every package file has the digest recorded with the
+    local-name reference table (the tree the known findings were triaged on)"""
+    import hashlib
+    from . import canon
+    dg = canon.load_table().get('__digests__', {})
+    if not dg:
+        return False
+    for rel, want in dg.items():
+        try:
+            with open(os.path.join(repo, rel), encoding='utf-8') as fh:
+                if hashlib.sha1(fh.read().encode()).hexdigest() != want:
+                    return False
+        except OSError:
+            return False
+    return True
+
+
 def run_property(prop, rules, tier, seed, meta):
     """rules: list of callables(ctx) -> Result | list[Result]."""
     t0 = time.time()
@@ -182,6 +200,17 @@ def run_property(prop, rules, tier, seed, meta):
     for f, m in knownhits:
         print(f'KNOWN-FINDING: property={prop} rule={f.rule} '
               f'{f.function}: {f.construct} -- {m.get("what", f.message)}')
+    # a listed finding that is no longer reproduced although the package is
+    # byte-identical to the reference tree means the checker lost a rule
+    hit_ids = {id(m) for _, m in knownhits}
+    lost = [m for m in known if m.get('property') == prop and
+            m.get('status') == 'known' and id(m) not in hit_ids]
+    if lost and not errors and _reference_tree(ctx.repo):
+        for m in lost:
+            errors.append(
+                f'known finding not reproduced on the reference tree '
+                f'(checker regression): rule={m.get("rule")} '
+                f'function={m.get("function")} construct={m.get("construct")}')
     wall = time.time() - t0
     write_evidence(prop, tier, seed, results, new, knownhits, wall, meta)
     for res in results:
